@@ -171,6 +171,7 @@ class Sim:
         self.log.ev('op', self.name, kind)
         fn = getattr(self, 'op_' + kind)
         fired_before = len(self.rt.fired)
+        kfail_before = self.rt.krylov_fail
         raised = None
         try:
             with contextlib.redirect_stdout(io.StringIO()):
@@ -223,6 +224,13 @@ class Sim:
                    ctx=f"{type(e).__name__}@{where}:{text}")
         for k_ in list(RHS_CACHE):
             self.probes.inc(k_, RHS_CACHE.pop(k_))
+        # A ScipyKrylov solver of this Problem reported non-convergence during the op (outside the randomised
+        # sparsity computation of a colouring): whatever the op returned is not covered by any property, whose
+        # common precondition is that the solvers converge.  WorldCheck.run drops a violation raised on such an op.
+        self.krylov_failed = self.rt.krylov_fail > kfail_before
+        self.probes['_kfail_' + self.name + self.variant] = int(self.krylov_failed)
+        if self.krylov_failed:
+            self.probes.inc('krylov_reported_nonconvergence_in_op')
         fired = len(self.rt.fired) - fired_before
         if fired:
             self.st.inc('faulted_ops')
